@@ -2,7 +2,8 @@ From Coq Require Extraction.
 From Coq Require Import ExtrOcamlBasic.
 From Coq Require Import List ZArith NArith.
 From Muduo Require Import Base_Bytes Gen_C11 C11_Model.
-Extraction "model.ml" C11_Model.astep C11_Model.acc_init C11_Model.poll_iteration C11_Model.accept_class
+Extraction "model.ml" C11_Model.astep C11_Model.acc_init C11_Model.accept_class
+  C11_Model.loop_run C11_Model.iter C11_Model.epoll_src C11_Model.ppoll_src C11_Model.k_intr C11_Model.k_timeout
   Gen_C11.errno_EAGAIN Gen_C11.errno_ECONNABORTED Gen_C11.errno_EINTR Gen_C11.errno_EPROTO Gen_C11.errno_EPERM
   Gen_C11.errno_EMFILE Gen_C11.errno_EBADF Gen_C11.errno_EFAULT Gen_C11.errno_EINVAL Gen_C11.errno_ENFILE
   Gen_C11.errno_ENOBUFS Gen_C11.errno_ENOMEM Gen_C11.errno_ENOTSOCK Gen_C11.errno_EOPNOTSUPP
